@@ -370,3 +370,45 @@ def c18_corrections_state(ctx, cls, change):
             img = rng.random((H, W, 3))
             a, b = corr.correct_array(img.copy()), back.correct_array(img.copy())
             ctx.ensure("reloaded type correction converts like the saved object (data_type changed after construction)", a.dtype == b.dtype and bool(np.array_equal(a, b)))
+
+
+def _checker_photo(rng, gain=0.55):
+    """synthetic photograph: the classic colour checker (tiles of its reference colours, under-exposed by `gain`) on a bright gradient background"""
+    ref = darsia.ColorCheckerAfter2014().swatches_rgb
+    tile = 40
+    checker = np.kron(np.clip(gain * ref + 0.02, 0, 1), np.ones((tile, tile, 1), dtype=np.float32))
+    rows, cols = checker.shape[:2]
+    ny, nx = rows + 60, cols + 80
+    yy, xx = np.meshgrid(np.linspace(0, 1, ny), np.linspace(0, 1, nx), indexing="ij")
+    img = np.stack([0.35 + 0.6 * xx, 0.95 - 0.9 * yy, 0.05 + 0.9 * xx * yy], axis=-1)
+    r0, c0 = 30, 40
+    img[r0:r0 + rows, c0:c0 + cols] = checker
+    roi = [[r0, c0], [r0 + rows, c0], [r0 + rows, c0 + cols], [r0, c0 + cols]]
+    return (255 * np.clip(img, 0, 1)).astype(np.uint8), roi
+
+
+@ob("C18.color_correction", kind="B", cases=product_cases(clip=(False, True), whitebalancing=(True, False), colorbalancing=("affine", "linear"), active=(True,)) + [dict(clip=True, whitebalancing=True, colorbalancing="affine", active=False)],
+    funcs=FUNCS, samples=(1, 1), tol=1e-3,
+    cite="Every correction that supports saving reloads through the generic reader to a correction producing identical output",
+    note="bounded: ColorCorrection on a synthetic colour-checker photograph, every configuration switch (clip, white balancing, colour balancing mode, active) in both positions: the "
+         "reloaded object has the configuration of the saved one (every scalar attribute) and produces its output (tolerance 1e-3: swatch detection uses cv2.kmeans with random "
+         "initial centres); brighter-than-white background so that clipping matters (after seed C18_h: save() kept a whitelist of config keys)")
+def c18_color_correction(ctx, clip, whitebalancing, colorbalancing, active):
+    import enum
+    rng = np.random.default_rng(ctx.rng.randrange(1 << 30))
+    img, roi = _checker_photo(rng)
+    cfg = {"roi": roi, "whitebalancing": whitebalancing, "colorbalancing": colorbalancing, "balancing": "darsia", "clip": clip, "active": active}
+    with tempfile.TemporaryDirectory() as tmp, contextlib.redirect_stdout(io.StringIO()):
+        corr = darsia.ColorCorrection(config=dict(cfg))
+        want = corr.correct_array(img.copy())
+        p = Path(tmp) / "cc.npz"
+        corr.save(p)
+        back = darsia.read_correction(p)
+        got = back.correct_array(img.copy())
+    scal = lambda o: {k: v for k, v in vars(o).items() if isinstance(v, (bool, int, float, str, type(None), enum.Enum))}
+    ctx.ensure("generic reader returns a ColorCorrection", type(back) is type(corr))
+    ctx.ensure(f"reloaded correction has the scalar configuration of the saved one: {scal(corr)} vs {scal(back)}", scal(corr) == scal(back))
+    ctx.ensure("every configuration entry of the saved object is present in the reloaded one", all(k in back.config and (np.all(np.asarray(back.config[k]) == np.asarray(v))) for k, v in corr.config.items()))
+    ctx.ensure("identical output (to swatch-detection noise)", got.shape == want.shape and got.dtype == want.dtype and float(np.max(np.abs(got.astype(float) - want.astype(float)))) <= 1e-3)
+    if clip and active:
+        ctx.ensure("clip=True: output confined to [0, 1] before and after reload", float(want.max()) <= 1.0 and float(got.max()) <= 1.0 and float(want.min()) >= 0.0 and float(got.min()) >= 0.0)
